@@ -119,11 +119,11 @@ CLAIMED = {
         technique="term-valued symbolic execution of the real NumPy and torch cross-correlation estimators on a structured spectrum family; argmax / floor / round / mod by solver-checked concretisation; returned-shift, antisymmetry and zero-shift claims decided by z3",
         text=("bounded model checking by symbolic execution on the family 'delta image vs. reference with symbolic spectral magnitudes "
               "p_k in [0.1, 1] and a concrete integer shift': for image shapes 4x4, 4x2, 2x4, every listed integer shift in the cell "
-              "(incl. beyond half the size and zero) and upsampling 1, 2, 4 (thorough: 3, 8) both estimators return exactly the applied "
+              "(incl. beyond half the size and zero) and upsampling 1, 2, 4 both estimators return exactly the applied "
               "shift and negate it when the images are swapped; each argmax and each integer part taken by the code is shown to be "
               "the same for all admissible magnitudes before it is used concretely"),
         note=("restricted input family (Fourier-space inputs, linear-phase reference), exact DFT lengths 2 and 4 only; arbitrary image "
-              "content, sub-pixel shifts / the 1/upsample accuracy clause, max_shift, return_shifted_image and upsampling 16-64 are "
+              "content, sub-pixel shifts / the 1/upsample accuracy clause, max_shift, return_shifted_image and upsampling factors other than 1, 2, 4 are "
               "outside; real arithmetic"),
         design_ref="DESIGN.md §5 C13"),
     "C14": dict(
